@@ -1629,7 +1629,10 @@ impl<'a> Tycker<'a> {
         }
         if self.errors.is_empty() {
             let blame = std::panic::Location::caller();
-            let coverage = CoverageChecker::new(&self.statics).validate();
+            let mut coverage = CoverageChecker::new(&self.statics).validate();
+            // `compus` is hash-ordered by identifiers whose key spaces depend on
+            // what the process checked before: list the failures by source term
+            coverage.sort_by_key(|error| self.statics.terms.source(&error.computation().into()));
             self.statics.coverage_errors = coverage.clone();
             self.errors.extend(coverage.into_iter().map(|error| TyckErrorEntry {
                 error: TyckError::Coverage(error),
